@@ -55,7 +55,7 @@ axiom("chain_leaf", "forall(lambda o, q: imp(in_chain(o, q) and instance_of(o, '
 axiom("chain_typed", "forall(lambda o, q: imp(in_chain(o, q) and q != o, instance_of(q, 'Problem')), "
       "o='ref:Problem', q='ref:Problem', pat=in_chain(o, q))")
 axiom("chain_alloc", "forall(lambda o, q: imp(in_chain(o, q) and allocated(o), allocated(q)), "
-      "o='ref:Problem', q='ref:Problem', pat=in_chain(o, q))")
+      "o='ref:Problem', q='ref:Problem', pat=in_chain(o, q))", only=["AbstractDeme.__init__"])
 axiom("chain_inner", "forall(lambda o: in_chain(o, inner(o)) and depth(inner(o)) == 0 and inner(inner(o)) == inner(o), "
       "o='ref:Problem')")
 # the two possible outcomes of an evaluation through any wrapper stack
